@@ -273,13 +273,27 @@ def gen_cases(ctx, g):
             mode = "new"
             if k > 0:
                 # at most one additional connection handle per pair of stacks
-                mode = "same" if (newconn_used or rng.random() < 0.5) else "new"
+                mode = rng.choice(["same", "same", "reconnect"]) if (newconn_used or rng.random() < 0.55) else "new"
                 newconn_used = newconn_used or mode == "new"
             steps.append(g.case(mkparams(*a, **g.rest()), mkparams(*b, **g.rest()), honest=(rng.random() < 0.8),
                                 kind="sequence", mode=mode))
         first = steps[0]
         first["more"] = steps[1:]
         cases.append(first)
+    # INTERLEAVED procedures on two connection handles of the same stacks (PDUs of the two alternate on the wire)
+    for j in range(120 if ctx.thorough else 16):
+        steps = []
+        for k in range(2):
+            if rng.random() < 0.6:
+                a, b = rep[[0, 1, 3, 4, 5, 3, 0][(j + 2 * k) % 7]]
+            else:
+                a, b = rng.choice(COMBOS), rng.choice(COMBOS)
+                a, b = (a[0], 0, a[2], a[3]), (b[0], 0, b[2], b[3])
+            steps.append(g.case(mkparams(*a, **g.rest()), mkparams(*b, **g.rest()), honest=(rng.random() < 0.8),
+                                kind="interleaved", mode="new"))
+        steps[1]["concurrent"] = True
+        steps[0]["more"] = steps[1:]
+        cases.append(steps[0])
     # fully random parameter sets
     for _ in range(4000 if ctx.thorough else 150):
         a, b = rng.choice(COMBOS), rng.choice(COMBOS)
@@ -326,11 +340,14 @@ def runs_of(r):
 
 def step_request(st):
     return {"mode": st.get("mode", "new"), "i": st["i"], "r": st["r"], "ui": st["ui"], "rmax": st.get("rmax", False),
-            "ediv": st.get("ediv"), "bv": st.get("bv", [])}
+            "ediv": st.get("ediv"), "bv": st.get("bv", []), "concurrent": bool(st.get("concurrent"))}
+
+
+COQ_MODE = {"same": "SameConn", "reconnect": "Reconnect", "new": "NewConn"}
 
 
 def public_case(c):
-    d = {k: c[k] for k in ("i", "r", "ui", "expect", "expect_class", "spec_method", "kind", "mode", "ediv", "bv") if k in c}
+    d = {k: c[k] for k in ("i", "r", "ui", "expect", "expect_class", "spec_method", "kind", "mode", "ediv", "bv", "concurrent") if k in c}
     if c.get("rmax"):
         d["rmax"] = True
     if c.get("more"):
@@ -445,7 +462,7 @@ def run(ctx):
             dist["outcomes"][o] = dist["outcomes"].get(o, 0) + 1
             dist["methods"][str(c.get("spec_method"))] = dist["methods"].get(str(c.get("spec_method")), 0) + 1
             if stepno:
-                mk = "step%d:%s" % (stepno + 1, c.get("mode"))
+                mk = "step%d:%s%s" % (stepno + 1, c.get("mode"), "+interleaved" if c.get("concurrent") else "")
                 dist.setdefault("sequence_steps", {})[mk] = dist.setdefault("sequence_steps", {}).get(mk, 0) + 1
             for s_ in r["sides"]:
                 for op in s_["trace"]:
@@ -456,8 +473,10 @@ def run(ctx):
             for what, key, exp, obs in vs:
                 payload = dict(public_case(c0), op="pair", failing_step=stepno + 1)
                 if stepno:
-                    what = "procedure %d of a sequence through the same stacks (%s connection): %s" % (
-                        stepno + 1, "same" if c.get("mode") == "same" else "new", what)
+                    what = "procedure %d of a sequence through the same stacks (%s): %s" % (
+                        stepno + 1, {"same": "same connection", "reconnect": "same handle after a disconnection",
+                                     "new": "new connection handle"}[c.get("mode", "new")]
+                        + (", interleaved with the previous one" if c.get("concurrent") else ""), what)
                 if key is not None and key in ctx.kf:
                     ctx.violation(what, payload, key=key, expected=exp, observed=obs)
                     continue
@@ -474,7 +493,7 @@ def run(ctx):
 
     # ---- correspondence model <-> implementation (inside Coq) -----------------
     pre = "From Whad Require Import C14.Base C14.GenTable C14.Model.\nOpen Scope N_scope."
-    terms = [clist(["(%s, %s)" % ("SameConn" if c.get("mode") == "same" else "NewConn", U.ccase(c, r))
+    terms = [clist(["(%s, %s)" % (COQ_MODE[c.get("mode", "new")], U.ccase(c, r))
                     for c, r in zip(steps_of(c0), runs_of(r0))]) for c0, r0 in zip(cases, results)]
     bad, logs = C.run_cases(PID, "pair", pre, "list (mode * case_t)", terms, "check_seq", shard=150, max_chars=350000)
     ctx.notes += logs[:4]
